@@ -3,14 +3,13 @@ import AtreeProofs.Trans.MapDescent
   WP13 (pop): the generated `MapDataSlab_PopIterate`, `MapSlab_PopIterate`, `MapMetaDataSlab_PopIterate` (+ `loop1`) of
   `Gen/TransMapDescent.lean` over a heap (`envD`) are the model's `MDataSlab.popIterate` / `MTree.popIterate`.
 
-  FINDING (translation, data slab).  Go's `MapDataSlab.PopIterate` calls `m.elements.PopIterate(storage, fn)`; the
-  receiver `*hkeyElements` resets ITSELF there (`e.hkeys = nil; e.elems = nil; e.size = hkeyElementsPrefixSize`).  The
-  parameter `elements_PopIterate : G → S → Option ε × S` of the generated text does not return the receiver, so the
-  generated `MapDataSlab_PopIterate` leaves `m.elements` as it was and resets only `header.size` and `header.firstKey`.
-  The model `MDataSlab.popIterate` empties the elements.  `Ob_MapDataSlab_PopIterate_heap` therefore states the exact
-  generated result (`md_data sl' x` WITH THE OLD ELEMENTS); the two agree iff the elements were already empty
-  (`Ob_MapDataSlab_PopIterate_heap_model`, hypothesis `mdp_ElemsEmpty`).  Above the data slab the difference is
-  invisible: a popped child is removed from the storage, and `OrderedMap.PopIterate` replaces the root.
+  HISTORY (finding 1 of the first version, FIXED in the translation table).  Go's `MapDataSlab.PopIterate` calls
+  `m.elements.PopIterate(storage, fn)`; the receiver `*hkeyElements` resets ITSELF there (`e.hkeys = nil; e.elems = nil;
+  e.size = hkeyElementsPrefixSize`).  The first generated text did not return the receiver of `elements_PopIterate`, so
+  the generated data slab kept its old elements.  Now `elements.PopIterate` is declared as mutating its receiver
+  (`elements_PopIterate : G → S → Option ε × G × S`, the generated `MapDataSlab_PopIterate` does
+  `m.elements := r1_.2.1`) and `envD` returns the emptied elements: the generated result IS the model's
+  `MDataSlab.popIterate` unconditionally, at every depth.
 -/
 namespace Atree.TransEq
 open Atree Atree.Gen.TransMapD
@@ -22,10 +21,9 @@ variable {r : Nat}
 /-- the elements are already the empty `hkeyElements` (what `elements.PopIterate` leaves behind) -/
 def mdp_ElemsEmpty (g : DG r) : Prop := g.hkeys = [] ∧ g.elems = [] ∧ g.size = Gen.hkeyElementsPrefixSize
 
-/-- what the generated `MapDataSlab_PopIterate` returns as the receiver: the model's popped slab, but with the OLD
-    elements (see the finding above) -/
-def mdp_dataRes (sl : MDataSlab r) (x : Option DX) (c : Ctx) : MapDataSlab (DG r) DX :=
-  { md_data (sl.popIterate c).2.1 x with elements := sl.elems }
+/-- what the generated `MapDataSlab_PopIterate` returns as the receiver: the model's popped slab -/
+abbrev mdp_dataRes (sl : MDataSlab r) (x : Option DX) (c : Ctx) : MapDataSlab (DG r) DX :=
+  md_data (sl.popIterate c).2.1 x
 
 /-- the storage after `elements.PopIterate` of a data slab -/
 def mdp_dataPost (sl : MDataSlab r) (s : MHSt r) : MHSt r :=
@@ -34,18 +32,18 @@ def mdp_dataPost (sl : MDataSlab r) (s : MHSt r) : MHSt r :=
 theorem mdp_u32_add (a b : Nat) : u32 a + u32 b = u32 (a + b) := by
   simp [u32]
 
-/-- `MapDataSlab.PopIterate` (map_data_slab.go) over a heap: the model's `MDataSlab.popIterate`, except that the
-    generated receiver keeps its elements.  `x.isSome = sl.root`: `getPrefixSize` tests `extraData != nil`, the model
-    the flag `root`. -/
+/-- `MapDataSlab.PopIterate` (map_data_slab.go) over a heap: the model's `MDataSlab.popIterate` (elements emptied,
+    `header.size = getPrefixSize() + hkeyElementsPrefixSize`, `header.firstKey = 0`).  `x.isSome = sl.root`:
+    `getPrefixSize` tests `extraData != nil`, the model the flag `root`. -/
 theorem Ob_MapDataSlab_PopIterate_heap (T : Nat) (eb : DEnvB r) (rs : DRestruct r) (sl : MDataSlab r)
     (x : Option DX) (s : MHSt r) (hx : x.isSome = sl.root) :
     MapDataSlab_PopIterate (envD T eb rs) (md_data sl x) s =
-      (none, mdp_dataRes sl x s.ctx, mdp_dataPost sl s) := by
+      (none, md_data (sl.popIterate s.ctx).2.1 x, mdp_dataPost sl s) := by
   have hp : MapDataSlab_getPrefixSize (envD T eb rs) (md_data sl x) = u32 sl.prefixSize := by
     unfold MapDataSlab_getPrefixSize MDataSlab.prefixSize
     cases hi : sl.inlined <;> cases hr : sl.root <;> cases x <;> simp_all [md_data]
   unfold MapDataSlab_PopIterate
-  simp only [envD, mdp_dataRes, mdp_dataPost, MDataSlab.popIterate, md_data, md_hdr, MDataSlab.eops]
+  simp only [envD, mdp_dataPost, MDataSlab.popIterate, md_data, md_hdr, MDataSlab.eops]
   simp only [Option.isNone_none, Bool.not_true, Bool.false_eq_true, if_false]
   have hp' := hp
   simp only [md_data, md_hdr] at hp'
@@ -55,18 +53,13 @@ theorem Ob_MapDataSlab_PopIterate_heap (T : Nat) (eb : DEnvB r) (rs : DRestruct 
   simp [MapDataSlab_getPrefixSize] at hp' ⊢
   exact hp'
 
-/-- model and generated text agree on a data slab whose elements are already empty -/
+/-- model and generated text agree on a data slab (the same statement as `Ob_MapDataSlab_PopIterate_heap` since the
+    translation returns the emptied elements; kept under its old name, the hypothesis `mdp_ElemsEmpty` is gone) -/
 theorem Ob_MapDataSlab_PopIterate_heap_model (T : Nat) (eb : DEnvB r) (rs : DRestruct r) (sl : MDataSlab r)
-    (x : Option DX) (s : MHSt r) (hx : x.isSome = sl.root) (he : mdp_ElemsEmpty sl.elems) :
+    (x : Option DX) (s : MHSt r) (hx : x.isSome = sl.root) :
     MapDataSlab_PopIterate (envD T eb rs) (md_data sl x) s =
-      (none, md_data (sl.popIterate s.ctx).2.1 x, mdp_dataPost sl s) := by
-  rw [Ob_MapDataSlab_PopIterate_heap T eb rs sl x s hx]
-  obtain ⟨h1, h2, h3⟩ := he
-  refine Prod.ext rfl (Prod.ext ?_ rfl)
-  simp only [mdp_dataRes, md_data, MDataSlab.popIterate]
-  congr 1
-  cases hg : sl.elems with
-  | mk a b c d => rw [hg] at h1 h2 h3; simp only at h1 h2 h3; subst h1 h2 h3; rfl
+      (none, md_data (sl.popIterate s.ctx).2.1 x, mdp_dataPost sl s) :=
+  Ob_MapDataSlab_PopIterate_heap T eb rs sl x s hx
 
 /-! ### the tree -/
 
@@ -126,11 +119,9 @@ def mdp_post (d : Nat) (t : MTree r d) (s : MHSt r) : MHSt r :=
     ctx := (MTree.popIterate d t s.ctx).2.2,
     popped := s.popped ++ (MTree.popIterate d t s.ctx).1 }
 
-/-- what the generated `MapSlab_PopIterate` returns as the receiver: the model's popped tree; a data slab keeps its old
-    elements (finding above) -/
-def mdp_treeRes : (d : Nat) → MTree r d → Option DX → Ctx → DSlab r
-  | 0, (sl : MDataSlab r), x, c => .dataSlab (mdp_dataRes sl x c)
-  | d + 1, (m : MMetaSlab (MTree r d)), x, c => md_tree (d + 1) (MTree.popIterate (d + 1) m c).2.1 x
+/-- what the generated `MapSlab_PopIterate` returns as the receiver: the model's popped tree -/
+abbrev mdp_treeRes (d : Nat) (t : MTree r d) (x : Option DX) (c : Ctx) : DSlab r :=
+  md_tree d (MTree.popIterate d t c).2.1 x
 
 theorem mdp_treeRes_succ (d : Nat) (t : MTree r (d + 1)) (x : Option DX) (c : Ctx) :
     mdp_treeRes (d + 1) t x c = md_tree (d + 1) (MTree.popIterate (d + 1) t c).2.1 x := rfl
@@ -270,7 +261,10 @@ theorem mdp_recSpec (T : Nat) (eb : DEnvB r) (rs : DRestruct r) :
     show MapSlab_PopIterate _ _ (.dataSlab (md_data sl x)) s = _
     unfold MapSlab_PopIterate
     simp only [Ob_MapDataSlab_PopIterate_heap T eb rs sl x s hx, mdp_treeRes]
-    simp [mdp_post, mdp_dataPost, md_ids, MTree.popIterate]
+    have hpost : mdp_dataPost sl s = mdp_post 0 sl s := by
+      simp [mdp_post, mdp_dataPost, md_ids, MTree.popIterate]
+    rw [hpost]
+    rfl
   | 0, d + 1, h => absurd h (by omega)
   | depth + 1, d + 1, h => by
     intro (m : MMetaSlab (MTree r d)) x s hh hnd hw _ hl
@@ -292,7 +286,7 @@ theorem Ob_MapSlab_PopIterate_heap (T : Nat) (eb : DEnvB r) (rs : DRestruct r) (
     (hx : mdp_RootOk d t x) (hl : mdp_LeafOk d t) :
     ∃ s' : MHSt r,
       MapSlab_PopIterate (envD T eb rs) (MapMetaDataSlab_PopIterate (envD T eb rs) depth) (md_tree d t x) s =
-        some (none, mdp_treeRes d t x s.ctx, s') ∧
+        some (none, md_tree d (MTree.popIterate d t s.ctx).2.1 x, s') ∧
       s'.ctx = (MTree.popIterate d t s.ctx).2.2 ∧
       s'.popped = s.popped ++ (MTree.popIterate d t s.ctx).1 ∧
       (∀ id ∈ md_ids d t, id ≠ (MTree.hdr d t).id → s'.heap id = none) ∧
@@ -313,19 +307,13 @@ theorem Ob_MapSlab_PopIterate_heap (T : Nat) (eb : DEnvB r) (rs : DRestruct r) (
     have : id ∉ (md_ids d t).tail := fun h => hid (by rw [mdp_ids_cons]; exact List.mem_cons_of_mem _ h)
     simp [mdp_post, this]
 
-/-- above a data slab the generated receiver IS the model's popped tree -/
+/-- the generated receiver IS the model's popped tree: above a data slab -/
 theorem Ob_MapSlab_PopIterate_heap_res_succ (d : Nat) (t : MTree r (d + 1)) (x : Option DX) (c : Ctx) :
     mdp_treeRes (d + 1) t x c = md_tree (d + 1) (MTree.popIterate (d + 1) t c).2.1 x := rfl
 
-/-- on a data slab it is the model's iff the elements were already empty -/
-theorem Ob_MapSlab_PopIterate_heap_res_zero (sl : MDataSlab r) (x : Option DX) (c : Ctx)
-    (he : mdp_ElemsEmpty sl.elems) :
-    mdp_treeRes 0 sl x c = md_tree 0 (MTree.popIterate 0 sl c).2.1 x := by
-  obtain ⟨h1, h2, h3⟩ := he
-  simp only [mdp_treeRes, md_tree, MTree.popIterate, mdp_dataRes, md_data, MDataSlab.popIterate]
-  congr 2
-  cases hg : sl.elems with
-  | mk a b c d => rw [hg] at h1 h2 h3; simp only at h1 h2 h3; subst h1 h2 h3; rfl
+/-- on a data slab too (no hypothesis on the elements any more) -/
+theorem Ob_MapSlab_PopIterate_heap_res_zero (sl : MDataSlab r) (x : Option DX) (c : Ctx) :
+    mdp_treeRes 0 sl x c = md_tree 0 (MTree.popIterate 0 sl c).2.1 x := rfl
 
 /-! ### the failing case: a child the heap does not hold -/
 
@@ -472,10 +460,11 @@ theorem mdp_ex_hyps : MHolds mdp_exSt.heap 1 mdp_exM mdp_exX ∧ (md_ids 1 mdp_e
       · exact ⟨rfl, trivial⟩
       · cases hc
 
-/-- `Ob_MapDataSlab_PopIterate_heap` on a concrete non-root data slab: size 18 + 8, first key 0, one entry popped -/
+/-- `Ob_MapDataSlab_PopIterate_heap` on a concrete non-root data slab: size 18 + 8, first key 0, elements emptied,
+    one entry popped -/
 example (T : Nat) (eb : DEnvB 0) (rs : DRestruct 0) :
     ∃ q, MapDataSlab_PopIterate (envD T eb rs) (md_data mdp_exA none) mdp_exSt = q ∧
-      q.1 = none ∧ q.2.1.header.size = 26 ∧ q.2.1.header.firstKey = 0 ∧ q.2.1.elements = mdp_exA.elems ∧
+      q.1 = none ∧ q.2.1.header.size = 26 ∧ q.2.1.header.firstKey = 0 ∧ q.2.1.elements = ⟨[], [], 8, 0⟩ ∧
       q.2.2.popped = [(mdp_exKA, default)] :=
   ⟨_, Ob_MapDataSlab_PopIterate_heap T eb rs mdp_exA none mdp_exSt rfl, rfl, rfl, rfl, rfl, rfl⟩
 
